@@ -144,6 +144,10 @@ fn site_of(file: &str, line: u32, msg: &str) -> (String, String) {
 // ------------------------------------------------------------------ a worker: one unit, one bystander, cases in sequence
 
 static NEXT_PORT: AtomicUsize = AtomicUsize::new(0);
+/// connections that were not ended within WEDGE after end of input; every one costs WEDGE seconds, so after a few the
+/// remaining cases are skipped (the verdict is a violation already)
+static WEDGES: AtomicUsize = AtomicUsize::new(0);
+const WEDGE_BUDGET: usize = 6;
 fn free_port() -> u16 {
     loop {
         let n = NEXT_PORT.fetch_add(1, SeqCst);
@@ -366,7 +370,9 @@ async fn run_case(w: &mut Worker, c: &Case, tname: &str) -> Outcome {
                 if !got { notes.push("barrier.bulk-timeout".into()); }
                 let arrived = bulks() > n_b;
                 let tn3 = tname.to_string();
-                let refused = EXPLODE_ERRS.lock().unwrap().iter().filter(|t| **t == tn3).count() > n_e;
+                // (the log line is only the fast path: if its wording changes, the bounded wait running out with the session
+                // still up is the same observation)
+                let refused = EXPLODE_ERRS.lock().unwrap().iter().filter(|t| **t == tn3).count() > n_e || (!got && !cl());
                 // (if the session had already ended neither happens: no token)
                 if has_mp(ch) { if arrived || refused { mp_marks.push((n_b, arrived)); } } else if !arrived && refused { plain_refused.push(n_b); }
             }
@@ -378,6 +384,7 @@ async fn run_case(w: &mut Worker, c: &Case, tname: &str) -> Outcome {
     let _ = wr.shutdown().await;
     let cl = gone.clone();
     let ended = wait_until(WEDGE, || cl()).await;
+    if !ended { WEDGES.fetch_add(1, SeqCst); }
     let peer_told = closed.load(SeqCst);
     drop(wr);
     if c.st == 'A' && t_case.elapsed() > Duration::from_secs(8) { return discard("delay-open-timer"); }
@@ -445,6 +452,7 @@ fn run_worker(wi: usize, cases: Vec<(usize, Case)>) -> Vec<(usize, Outcome)> {
         let mut outs = vec![];
         let mut w: Option<Worker> = None;
         for (idx, c) in cases {
+            if WEDGES.load(SeqCst) >= WEDGE_BUDGET { outs.push((idx, Outcome { case: show_case(&c), imp: String::new(), oracle: String::new(), nontrivial: false, notes: vec!["discarded.wedge-budget-exhausted".into()], discard: true, panic_tok: String::new() })); continue; }
             if w.as_ref().map(|x| x.used >= POOL).unwrap_or(true) {
                 if let Some(old) = w.take() { old.unit.agent.terminate().await; old.unit.task.abort(); }
                 w = start_worker(wi).await;
